@@ -702,3 +702,53 @@ package utreexo
 //@   ensures forall k in 0..len(created): 0 <= created[k] && created[k] < len(cached)
 //@   loop 1: invariant len(createdPositions) == len(created) && len(cached) == old(len(cached))
 //@   loop 2: invariant len(createdPositions) == len(created) && len(cached) == old(len(cached))
+
+// Safety-only contracts (no functional clause): the generator's automatic obligations - nil dereference, index and slice
+// bounds, make sizes - are discharged for these bodies with no annotation.  Pointer parameters and receivers are
+// assumed non-nil at entry (listed in the evidence); everything dereferenced after that has to be guarded by the body.
+
+//@ func (m *MapPollard) pruneNieces(pos uint64)
+
+//@ func (m *MapPollard) forgetUnneededDel(del uint64) error
+
+//@ func (m *MapPollard) addSingle(add Leaf) error
+
+//@ func (m *MapPollard) moveUpDescendants(position, delPos, numLeaves uint64) error
+
+//@ func (m *MapPollard) moveUpChild(position, delPos, numLeaves uint64, child func(uint64, uint8) uint64) ([]uint64, error)
+
+//@ func (m *MapPollard) remap() (uint8, error)
+
+//@ func (m *MapPollard) forgetBelow(position uint64)
+
+//@ func (m *MapPollard) updateHashes(position uint64, hash Hash)
+
+//@ func (m *MapPollard) removeSingle(del uint64) error
+
+//@ func (m *MapPollard) placeEmptyRoot(prevRootPos uint64) error
+
+//@ func (p *Pollard) Modify(adds []Leaf, delHashes []Hash, proof Proof) error
+
+//@ func (p *Pollard) add(adds []Leaf)
+
+//@ func (p *Pollard) remove(dels []uint64) error
+
+//@ func (n *polNode) getChildren() (*polNode, *polNode, error)
+
+//@ func (n *polNode) deadEnd() bool
+
+//@ func (n *polNode) chop()
+
+//@ func swapPlaces(from, fromSib, to, toSib *polNode)
+
+//@ func swapNieces(a, b *polNode)
+
+//@ func transferNiece(a, b *polNode)
+
+//@ func getCount(n *polNode) int64
+
+//@ func calculateParentHash(nodePos uint64, node, sibling *polNode) Hash
+
+//@ func insertSortNodeAndPos(nodes []nodeAndPos, el nodeAndPos) []nodeAndPos
+
+//@ func GetMissingPositions(numLeaves uint64, proofTargets, desiredTargets []uint64) []uint64
